@@ -359,6 +359,9 @@ func plainVal(g *gen.G, d int) any {
 	if d <= 0 || g.P(0.35) {
 		return []any{1, 2, "x", "y", true, 1.5, "", "1", 0, false}[g.N(10)]
 	}
+	if g.P(0.08) {
+		return []any{map[string]any{}, []any{}}[g.N(2)] // empty containers
+	}
 	if g.P(0.5) {
 		return plainMap(g, d)
 	}
@@ -396,6 +399,8 @@ func editAt(g *gen.G, m map[string]any, d int) {
 			editAt(g, v, d-1)
 		case g.P(0.3):
 			delete(m, k)
+		case g.P(0.2):
+			m[k] = map[string]any{} // emptied
 		case g.P(0.3):
 			m[k] = plainVal(g, 0) // kind change: map -> scalar
 		default:
